@@ -17,7 +17,12 @@ pub fn ledger_params(tier: Tier) -> GenParams {
     p.max_rows = tier.pick(16, 36);
     p
 }
-fn identity_strategy(tier: Tier) -> BoxedStrategy<LedgerCase> { ledger_strategy(ledger_params(tier), 2) }
+fn identity_strategy(tier: Tier) -> BoxedStrategy<LedgerCase> {
+    // a quarter of the histories trade symbols that are not all upper case (the first of them may carry the opening cost base)
+    let mut mixed = ledger_params(tier);
+    mixed.secs = vec!["Brk.b", "xeqt", "FOO"];
+    prop_oneof![3 => ledger_strategy(ledger_params(tier), 2), 1 => ledger_strategy(mixed, 2)].boxed()
+}
 fn window_strategy(_t: Tier) -> BoxedStrategy<LedgerCase> {
     let mut p = super::c02::scen_params();
     p.afs = vec!["", "Spouse", "Kid"];
